@@ -1,5 +1,8 @@
 import ExaModel.Props.C20
 #print axioms Exa.Props.C20.c20_tables
+#print axioms Exa.Props.C20.c20_py_trigger
+#print axioms Exa.Props.C20.c20_py_states
+#print axioms Exa.Props.C20.c20_py_one
 #print axioms Exa.Props.C20.c20_states_complete
 #print axioms Exa.Props.C20.c20_unhandled_unreachable
 #print axioms Exa.Props.C20.c20_up_needs_rise
